@@ -29,7 +29,7 @@ OPTNAMES = [b"output", b"message_format", b"filter_chain", b"error_logging", b"s
 def strategy():
     @st.composite
     def cfgstep(draw):
-        k = draw(st.sampled_from(["cfg"] * 5 + ["broken"] * 2))
+        k = draw(st.sampled_from(["cfg"] * 5 + ["broken"] * 2 + ["noheader", "badheader"]))
         cfg = draw(gen.st_config("@OUT@", SOURCES, ("snoopy_literal", "uid", "gid", "failure")))
         if k == "broken" and cfg["ini"] is not None and cfg["opts"]:
             # a syntax error in the middle of otherwise valid options
@@ -37,6 +37,11 @@ def strategy():
             pos = draw(st.integers(1, len(lines) - 1))
             lines.insert(pos, draw(st.sampled_from([b"this line has no separator", b"[unterminated", b"=novalue?"])))
             cfg = dict(cfg, ini=b"\n".join(lines), kind=cfg["kind"] + "+syntaxerror")
+        if k in ("noheader", "badheader") and cfg["ini"] is not None and cfg["ini"].startswith(b"[snoopy]\n") and cfg["opts"]:
+            # option lines outside any (intact) section header: a fresh process ignores them -- so must a later call of an old one
+            body = cfg["ini"][len(b"[snoopy]\n"):]
+            cfg = dict(cfg, ini=(b"" if k == "noheader" else draw(st.sampled_from([b"[snoopy\n", b"[other]\n", b"[snoopy ]x\n", b"snoopy]\n"]))) + body,
+                       kind=cfg["kind"] + "+" + k)
         return {"op": "cfg", "cfg": cfg}
 
     @st.composite
@@ -154,7 +159,8 @@ def deltas(dumps):
 
 def run_history(d, c, snap=False):
     out = d.out
-    ops = sink_ops(out)
+    # errno on entry to each call is what the previous (failed) exec left behind, as in a real process
+    ops = sink_ops(out) + [drv.op("e", -1)]
     calls = []
     cfg = None
     for s in c["steps"]:
